@@ -1,4 +1,4 @@
-#![allow(non_snake_case)]
+#![allow(non_snake_case, non_camel_case_types, non_upper_case_globals)]
 //! The `library!` macro forms, checked on the valid subset (the macro
 //! `expect`s every constructor by design): each form is paired with the
 //! description of the library it must expand to; the same model and the same
@@ -233,6 +233,76 @@ pub fn forms() -> Vec<Form> {
                 ]
             },
         },
+        Form {
+            text: "fn accept() -> u32 { 101 }  (a Roto keyword that is an ordinary Rust identifier)",
+            lib: || library! { fn accept() -> u32 { 101 } },
+            items: || vec![named(0, K::Fn(R::U), "accept", vec![])],
+        },
+        Form {
+            text: "fn dep() -> u32 { 101 }  (a Roto keyword that is an ordinary Rust identifier)",
+            lib: || library! { fn dep() -> u32 { 101 } },
+            items: || vec![named(0, K::Fn(R::U), "dep", vec![])],
+        },
+        Form {
+            text: "fn filter() -> u32 { 101 }  (a Roto keyword that is an ordinary Rust identifier)",
+            lib: || library! { fn filter() -> u32 { 101 } },
+            items: || vec![named(0, K::Fn(R::U), "filter", vec![])],
+        },
+        Form {
+            text: "fn filtermap() -> u32 { 101 }  (a Roto keyword that is an ordinary Rust identifier)",
+            lib: || library! { fn filtermap() -> u32 { 101 } },
+            items: || vec![named(0, K::Fn(R::U), "filtermap", vec![])],
+        },
+        Form {
+            text: "fn import() -> u32 { 101 }  (a Roto keyword that is an ordinary Rust identifier)",
+            lib: || library! { fn import() -> u32 { 101 } },
+            items: || vec![named(0, K::Fn(R::U), "import", vec![])],
+        },
+        Form {
+            text: "fn pkg() -> u32 { 101 }  (a Roto keyword that is an ordinary Rust identifier)",
+            lib: || library! { fn pkg() -> u32 { 101 } },
+            items: || vec![named(0, K::Fn(R::U), "pkg", vec![])],
+        },
+        Form {
+            text: "fn record() -> u32 { 101 }  (a Roto keyword that is an ordinary Rust identifier)",
+            lib: || library! { fn record() -> u32 { 101 } },
+            items: || vec![named(0, K::Fn(R::U), "record", vec![])],
+        },
+        Form {
+            text: "fn reject() -> u32 { 101 }  (a Roto keyword that is an ordinary Rust identifier)",
+            lib: || library! { fn reject() -> u32 { 101 } },
+            items: || vec![named(0, K::Fn(R::U), "reject", vec![])],
+        },
+        Form {
+            text: "fn std() -> u32 { 101 }  (a Roto keyword that is an ordinary Rust identifier)",
+            lib: || library! { fn std() -> u32 { 101 } },
+            items: || vec![named(0, K::Fn(R::U), "std", vec![])],
+        },
+        Form {
+            text: "fn test() -> u32 { 101 }  (a Roto keyword that is an ordinary Rust identifier)",
+            lib: || library! { fn test() -> u32 { 101 } },
+            items: || vec![named(0, K::Fn(R::U), "test", vec![])],
+        },
+        Form {
+            text: "mod test { fn a() -> u32 { 114 } }",
+            lib: || library! { mod test { fn a() -> u32 { 114 } } },
+            items: || vec![named(0, K::Mod, "test", vec![named(1, K::Fn(R::U), "a", vec![])])],
+        },
+        Form {
+            text: "const accept: u32 = 101;",
+            lib: || library! { const accept: u32 = 101; },
+            items: || vec![named(0, K::Const(R::U), "accept", vec![])],
+        },
+        Form {
+            text: "#[clone] type record = Val<A>;",
+            lib: || library! { #[clone] type record = Val<A>; },
+            items: || vec![named(0, K::Ty(R::A), "record", vec![])],
+        },
+        Form {
+            text: "fn r#match() -> u32 { 101 }  (a raw identifier)",
+            lib: || library! { fn r#match() -> u32 { 101 } },
+            items: || vec![named(0, K::Fn(R::U), "r#match", vec![])],
+        },
     ]
 }
 
@@ -262,8 +332,42 @@ pub fn run(cx: &mut Cx) {
             let pred = model::predict(&lib);
             cx.states(1);
             cx.nontrivial(vcore::util::mix(0x18, sub));
-            if !pred.construct_ok || pred.open {
-                cx.note(format!("macro form {i} is outside the valid subset"));
+            if pred.open {
+                cx.note(format!("macro form {i} is outside the specified subset"));
+                continue;
+            }
+            if !pred.construct_ok {
+                // an invalid name: the library value carries no error, so the
+                // RegistrationError may come from from_lib / add — but it
+                // must be an error, never a panic
+                cx.transitions(1);
+                cx.validated(1);
+                cx.count("library_macro_forms_run", 1);
+                let r = vcore::util::catch(|| {
+                    let l = (f.lib)();
+                    if via_add {
+                        let mut rt = Runtime::new();
+                        rt.add(l).map(|_| ())
+                    } else {
+                        Runtime::from_lib(l).map(|_| ())
+                    }
+                });
+                cx.outcome(vcore::util::fnv_str(&format!("{:?}", r.as_ref().map(|x| x.is_ok()))));
+                let (class, observed) = match r {
+                    Ok(Err(_)) => continue,
+                    Ok(Ok(())) => ("add-result", json!({"summary": "Ok", "steps": ["ok", "ok"], "error": ""})),
+                    Err(p) => ("panic", json!({"summary": format!("PANIC: {p}"), "steps": ["panic"], "error": p})),
+                };
+                let mut c = lib_json(&lib, &pred);
+                c["library_macro"] = json!(f.text);
+                c["entry_point"] = json!(if via_add { "Runtime::new() + add" } else { "Runtime::from_lib" });
+                cx.violation(
+                    class,
+                    sub,
+                    c,
+                    json!({"summary": "a RegistrationError (from the library value, from_lib or add), never a panic", "steps": ["err"]}),
+                    observed,
+                );
                 continue;
             }
             let mut obs = Obs { construct: Ok(()), adds: vec![], panic: None };
